@@ -246,11 +246,20 @@ fn guarded<T>(f: impl FnOnce() -> T + std::panic::UnwindSafe) -> Result<T, Strin
 }
 
 /// open + observe + drop; the observation carries the hash of the file after the drop
-pub fn open_and_observe(path: &Path, tokens: &[String]) -> Obs {
+pub fn open_and_observe(path: &Path, tokens: &[String]) -> Obs { open_observe_copy(path, tokens, None) }
+
+/// `copy_to`: byte copy of the file taken right after `open` returned, while the handle is still
+/// alive (= what a crash immediately after the recovery leaves)
+pub fn open_observe_copy(path: &Path, tokens: &[String], copy_to: Option<&Path>) -> Obs {
     let p = path.to_path_buf();
     let toks = tokens.to_vec();
+    let cp = copy_to.map(|c| c.to_path_buf());
     let r = guarded(move || match Memvid::open(&p) {
         Ok(mut mem) => {
+            if let Some(c) = &cp {
+                if let Some(d) = c.parent() { let _ = std::fs::create_dir_all(d); }
+                let _ = std::fs::copy(&p, c);
+            }
             let o = observe(&mut mem, &toks);
             drop(mem);
             o
@@ -400,10 +409,18 @@ fn child_open(list_file: &str) {
     use std::io::Write;
     let out = std::io::stdout();
     for (i, p) in paths.iter().enumerate().skip(start) {
-        let first = open_and_observe(Path::new(p), &tokens);
+        // first = the (possibly recovering) open of the crash image; second = clean close + reopen of the
+        // same file; third = open of a byte copy taken right after the first open returned (a crash
+        // immediately after recovery)
+        let copy = Path::new(p).parent().map(|d| d.join("after-open").join(FILE_NAME));
+        let first = open_observe_copy(Path::new(p), &tokens, if twice { copy.as_deref() } else { None });
         let second = if twice && first.ok { Some(open_and_observe(Path::new(p), &tokens)) } else { None };
+        let third = match (&copy, twice && first.ok) {
+            (Some(c), true) if c.exists() => Some(open_and_observe(c, &tokens)),
+            _ => None,
+        };
         let mut o = out.lock();
-        let _ = writeln!(o, "{}", serde_json::to_string(&json!({"i": i, "first": first, "second": second})).unwrap());
+        let _ = writeln!(o, "{}", serde_json::to_string(&json!({"i": i, "first": first, "second": second, "third": third})).unwrap());
         let _ = o.flush();
     }
 }
@@ -1247,7 +1264,25 @@ pub fn allowed_states(history: &[HOp], spans: &[StepSpan], k: usize) -> (RefMode
 
 pub struct OpenResult {
     pub first: Obs,
+    /// clean close + reopen of the file the first open left
     pub second: Option<Obs>,
+    /// open of a byte copy taken right after the first open returned
+    pub third: Option<Obs>,
+}
+
+impl OpenResult {
+    /// "opening a recovered file again changes nothing": the reopen and the crash-right-after-recovery
+    /// copy must show what the first open showed; returns a description of the difference
+    pub fn reopen_diff(&self) -> Option<String> {
+        for (tag, o) in [("clean close + reopen", &self.second), ("copy taken right after the open returned, opened", &self.third)] {
+            if let Some(o) = o {
+                if o.logical() != self.first.logical() {
+                    return Some(format!("{tag} shows [{}], the first open showed [{}]", o.logical(), self.first.logical()));
+                }
+            }
+        }
+        None
+    }
 }
 
 /// write the images to `scratch/img-N/m.mv2`, run one child that opens them all, collect observations.
@@ -1276,7 +1311,8 @@ pub fn open_images(exe: &Path, scratch: &Path, images: &[Vec<u8>], tokens: &[Str
                     if i < images.len() {
                         let first: Obs = serde_json::from_value(v["first"].clone()).unwrap_or_else(|_| Obs::failed("bad child line".into()));
                         let second: Option<Obs> = serde_json::from_value(v["second"].clone()).ok().flatten();
-                        results[i] = Some(OpenResult { first, second });
+                        let third: Option<Obs> = serde_json::from_value(v["third"].clone()).ok().flatten();
+                        results[i] = Some(OpenResult { first, second, third });
                         last = Some(i);
                     }
                 }
@@ -1285,14 +1321,14 @@ pub fn open_images(exe: &Path, scratch: &Path, images: &[Vec<u8>], tokens: &[Str
         let next = last.map(|l| l + 1).unwrap_or(start);
         if next >= images.len() { break; }
         // the child died on image `next`
-        results[next] = Some(OpenResult { first: Obs::failed("CHILD-DIED (abort/stack overflow/kill)".into()), second: None });
+        results[next] = Some(OpenResult { first: Obs::failed("CHILD-DIED (abort/stack overflow/kill)".into()), second: None, third: None });
         start = next + 1;
     }
     for i in 0..images.len() {
         let _ = std::fs::remove_dir_all(scratch.join(format!("img-{i}")));
     }
     let _ = std::fs::remove_file(&list);
-    results.into_iter().map(|r| r.unwrap_or(OpenResult { first: Obs::failed("no result".into()), second: None })).collect()
+    results.into_iter().map(|r| r.unwrap_or(OpenResult { first: Obs::failed("no result".into()), second: None, third: None })).collect()
 }
 
 // ---------------------------------------------------------------------------------------------
@@ -1566,7 +1602,14 @@ pub fn eval_process_crashes(exe: &Path, scratch: &Path, history: &[HOp], rec: &R
     let obs = open_images(exe, scratch, &images, &tokens, twice);
     let mut points = vec![];
     for (k, idx) in &pts {
-        let v = judge(history, &spans, *k, &obs[*idx].first, &tokens);
+        let mut v = judge(history, &spans, *k, &obs[*idx].first, &tokens);
+        if v.ok {
+            if let Some(d) = obs[*idx].reopen_diff() {
+                let step = inflight_name(&spans, *k).replace('_', "-");
+                v = Verdict { ok: false, signature: format!("reopen-after-recovery-changes-frames-after-crash-in-{step}"),
+                    what: format!("the first open of the crash image is as acknowledged, but {d}"), matched: "" };
+            }
+        }
         points.push(PointResult { k: *k, image: *idx, inflight: inflight_name(&spans, *k), verdict: v });
     }
     CrashEval { points, images, obs, cell_rle, obj_upto, labeller: lab }
